@@ -70,6 +70,10 @@ import c27_helper as hm
 
 def public_function(a):
     return a
+def public_function_too(a):
+    return a
+def public_functional(a):
+    return a
 def _protected_function(a):
     return a
 def __private_function(a):
@@ -205,6 +209,8 @@ def cluster_problems(vis_name, ignore=()):
                 continue
             if owner_mod != "c27_subject":
                 out.append(("nothing defined in another module is marked as under test", f"foreign:{kind}:{a}", str(a)))
+            if kind == "function" and f"c27_subject.{name}" in ignore:
+                out.append(("a function ignored by configuration is not under test", f"ignored-under-test:{name}", str(a)))
             if name is not None and not _eligible(name, vis_name):
                 out.append(("every callable under test has a name that is eligible under the visibility setting",
                             f"ineligible:{kind}:{name}", str(a)))
@@ -303,7 +309,15 @@ def _check_c27(part: Part, tier, seed):
             part.violation(clause, f"{vis}:{cls}", {"visibility": vis, "what": what, "module": "package c27_pkg with submodule c27_pkg.util"},
                            target=f"{MO}:__analyse_included_functions")
     for vis in ("PUBLIC", "PROTECTED", "ALL"):
-        for ignore in ((), ("c27_subject.public_function",)):
+        ignores = [(), ("c27_subject.public_function",),
+                   # an entry that is a proper prefix of other names ignores nothing else; an entry that names nothing ignores nothing
+                   ("c27_subject.public",), ("c27_subject.public_function", "c27_subject._protected_function"),
+                   ("c27_subject.public_function_too", "c27_subject.helper_function", "other_module.public_functional")]
+        if tier == "thorough":
+            rnd = __import__("random").Random(seed)
+            names_ = ["public_function", "public_function_too", "public_functional", "_protected_function", "_Foo__looks_mangled", "public"]
+            ignores += [tuple(f"c27_subject.{n_}" for n_ in rnd.sample(names_, rnd.randint(1, 3))) for _ in range(6)]
+        for ignore in ignores:
             part.case()
             for clause, cls, what in cluster_problems(vis, ignore):
                 part.violation(clause, f"{vis}:{cls}", {"visibility": vis, "ignore_methods": list(ignore), "what": what,
@@ -317,8 +331,9 @@ def bounded_c27(tier, seed):
                    "lambdas bound to public and protected names, a coroutine, imported and aliased functions, classes with "
                    "public/protected/private/dunder/static/class methods, properties, method aliases of another visibility, nested "
                    "class, protected class, abstract class, enum, subclasses of imported classes) under PUBLIC/PROTECTED/ALL x "
-                   "{no ignore list, one ignored function}; plus the name-mangling predicate on 18 names",
-             bound="one module, 6 configurations")
+                   "5 ignore lists (none, one function, a proper prefix of function names, two functions, names of other modules; thorough: 6 "
+                   "random ones more); plus the name-mangling predicate on 18 names",
+             bound="one module, 15 (33) configurations")
     return guarded(p, _check_c27, tier, seed)
 
 
